@@ -350,8 +350,8 @@ Proof.
   - rewrite IH by lia. f_equal. lia.
 Qed.
 
-Lemma exec_block_app call a : forall b ctl st,
-  exec_block call (a ++ b) ctl st = exec_block call b ctl (exec_block call a ctl st).
+Lemma exec_block_app rdm call a : forall b ctl st,
+  exec_block rdm call (a ++ b) ctl st = exec_block rdm call b ctl (exec_block rdm call a ctl st).
 Proof. induction a; intros; simpl; auto. Qed.
 
 (* straight-line statements that leave bit n alone *)
@@ -361,8 +361,8 @@ Definition leaves (n : node) (s : stmt) : Prop :=
   | SBranch _ _ => False
   end.
 
-Lemma exec_block_leaves call n post : forall ctl st,
-  Forall (leaves n) post -> lookup n (exec_block call post ctl st) = lookup n st.
+Lemma exec_block_leaves rdm call n post : forall ctl st,
+  Forall (leaves n) post -> lookup n (exec_block rdm call post ctl st) = lookup n st.
 Proof.
   induction post as [|s t IH]; intros ctl st H; simpl; auto.
   inversion H as [|? ? Hs Ht]; subst. rewrite IH by auto.
@@ -372,13 +372,13 @@ Qed.
 
 (* A read at the end of a block sees the latest preceding write of that bit — the value of the
    assigned expression in the state reached just BEFORE that assignment — whatever came earlier. *)
-Theorem ssa_order : forall call ctl pre base len e post st n,
+Theorem ssa_order : forall rdm call ctl pre base len e post st n,
   In n (nodes_from base len) ->
   Forall (leaves n) post ->
-  rd (exec_block call (pre ++ SAssign base len e :: post) ctl st) n =
-  union ctl (vbit (eval call (exec_block call pre ctl st) e) (N.to_nat (n - base))).
+  rd (exec_block rdm call (pre ++ SAssign base len e :: post) ctl st) n =
+  union ctl (vbit (eval rdm call (exec_block rdm call pre ctl st) e) (N.to_nat (n - base))).
 Proof.
-  intros call ctl pre base len e post st n Hn Hpost.
+  intros rdm call ctl pre base len e post st n Hn Hpost.
   rewrite exec_block_app. simpl exec_block at 1. unfold rd.
   rewrite exec_block_leaves by auto. simpl.
   apply nodes_from_In in Hn.
@@ -391,18 +391,68 @@ Proof.
 Qed.
 
 (* ... and the block-entry value when no statement of the block writes the bit *)
-Theorem ssa_entry : forall call ctl body st n,
-  Forall (leaves n) body -> rd (exec_block call body ctl st) n = rd st n.
+Theorem ssa_entry : forall rdm call ctl body st n,
+  Forall (leaves n) body -> rd (exec_block rdm call body ctl st) n = rd st n.
 Proof. intros. unfold rd. now rewrite exec_block_leaves. Qed.
 
 (* sequential reassignment is not a loop:  x = a; x = x + 1;  leaves x depending on a only *)
 Example seq_reassign_no_loop :
   let x := 0 in let a := 4 in
-  lower (fun n => n) [] (IComb [SAssign x 4 (DRef a 4); SAssign x 4 (DFull 4 [DRef x 4; DConst 4])])
+  lower (fun n => [n]) (fun n => n) [] (IComb [SAssign x 4 (DRef a 4); SAssign x 4 (DFull 4 [DRef x 4; DConst 4])])
   = [(0, [4;5;6;7]); (1, [4;5;6;7]); (2, [4;5;6;7]); (3, [4;5;6;7])]
   /\ design_has_cycle [] [IComb [SAssign x 4 (DRef a 4); SAssign x 4 (DFull 4 [DRef x 4; DConst 4])]] = false
   /\ design_has_cycle [] [IComb [SAssign x 4 (DFull 4 [DRef x 4; DConst 4])]] = true.
 Proof. vm_compute. repeat split; reflexivity. Qed.
+
+(* ------------------------------------------------------------------------------------------ *)
+(** * The merge at the end of a branch (model of SsaStore::merge) *)
+
+Lemma mem_n_In x l : mem_n x l = true <-> In x l.
+Proof.
+  induction l as [|y t IH]; simpl; [split; [discriminate | tauto]|].
+  destruct (N.eqb_spec x y) as [->|Hne]; [tauto|]. rewrite IH. split; [auto|]. intros [E|H]; [congruence | auto].
+Qed.
+
+Lemma dedup_In x l : In x (dedup l) <-> In x l.
+Proof.
+  induction l as [|y t IH]; simpl; [tauto|].
+  destruct (mem_n y t) eqn:E.
+  - rewrite IH. split; [auto|]. intros [<-|H]; auto. now apply mem_n_In.
+  - simpl. rewrite IH. tauto.
+Qed.
+
+Lemma lookup_tab_in (f : node -> deps) n l st :
+  In n l -> lookup n (map (fun m => (m, f m)) l ++ st) = Some (f n).
+Proof.
+  induction l as [|x t IH]; intros H; [destruct H|]. simpl.
+  destruct (N.eqb_spec n x) as [->|Hne]; auto.
+  apply IH. destruct H; [congruence | auto].
+Qed.
+
+Lemma lookup_tab_out (f : node -> deps) n l st :
+  ~ In n l -> lookup n (map (fun m => (m, f m)) l ++ st) = lookup n st.
+Proof.
+  induction l as [|x t IH]; intros H; simpl; auto.
+  destruct (N.eqb_spec n x) as [->|Hne]; [exfalso; apply H; now left|].
+  apply IH. intros Hin. apply H. now right.
+Qed.
+
+(* a bit some arm wrote holds, after the branch, the union of what it holds at the end of every arm
+   (an arm that did not write it contributes the value from before the branch, or nothing if the
+   bit was never written: retained state); a bit no arm wrote is untouched *)
+Theorem merge_written : forall st outs n,
+  In n (flat_map (delta st) outs) ->
+  lookup n (merge st outs) = Some (merged outs n).
+Proof.
+  intros st outs n H. unfold merge. apply lookup_tab_in. now apply dedup_In.
+Qed.
+
+Theorem merge_unwritten : forall st outs n,
+  ~ In n (flat_map (delta st) outs) ->
+  lookup n (merge st outs) = lookup n st.
+Proof.
+  intros st outs n H. unfold merge. apply lookup_tab_out. now rewrite dedup_In.
+Qed.
 
 (* a rotation  a = {a[2:0], a[3]}  seen through the one-class partition: uniform, and cyclic *)
 Definition rot_graph : graph := [(0, [3]); (1, [0]); (2, [1]); (3, [2])].
